@@ -127,6 +127,25 @@ def parseHeapOp (modName : String) (toks : List String) : Option Astm.Heap.Op :=
     pure (.relist (← r.toNat?) fld ns ss)
   | _ => none
 
+/-- a command of the `heap` line: a plain operation, or a list operation with unvalidated new occurrences
+    (`RLC r letter field r(...) sel`) -/
+def parseHeapCmd (modName : String) (toks : List String) : Option (Astm.Heap.World → Astm.Heap.World) :=
+  match toks with
+  | ["RLC", r, letter, fld, wires, sel] => do
+    let S ← findRecordSpec modName letter
+    let f ← S.fields.find? (·.name == fld)
+    let w ← parseRecord wires
+    let items ← match w with
+      | [Astm.Field.rep cs] => some cs
+      | [Astm.Field.comp c] => some [c]
+      | [Astm.Field.text t] => some [[some t]]
+      | [Astm.Field.null] => some []
+      | _ => none
+    let ss ← if sel == "-" then some [] else (sel.splitOn ",").mapM parseSel
+    let rn ← r.toNat?
+    pure fun W => Astm.Heap.stepChecked W f.sub [] rn fld items ss
+  | _ => (parseHeapOp modName toks).map fun op W => Astm.Heap.step W op
+
 def showDict (d : Astm.Fields.Dict) : String := " ".intercalate (d.map fun kv => kv.1 ++ ":" ++ showFV kv.2)
 
 def showWorld (W : Astm.Heap.World) : String :=
@@ -239,10 +258,10 @@ def handle (toks : List String) : String :=
   | "heap" :: modName :: rest =>
     -- ops separated by ";" tokens; prints the rendering of all records after every op
     let groups := (rest.splitOn ";").filter (· ≠ [])
-    match groups.mapM (parseHeapOp modName) with
+    match groups.mapM (parseHeapCmd modName) with
     | some ops =>
       let (_, outs) := ops.foldl (fun (acc : Astm.Heap.World × List String) op =>
-        let W' := Astm.Heap.step acc.1 op
+        let W' := op acc.1
         (W', acc.2 ++ [showWorld W'])) (({} : Astm.Heap.World), [])
       "ok " ++ " ## ".intercalate outs
     | none => "bad-arg"
